@@ -146,6 +146,9 @@ type nonces struct{ local, server []byte }
 // exec runs the events on a real channel; mode "sync": expiry through VerifExpireNow.
 func (e *env) exec(tc *tcase) (verdicts []string, table string, ok bool) {
 	cfg := h.RecvSecureConfig(tc.uri, tc.mode, e.keyA, e.keyB.CertDER)
+	if tc.mode == ua.MessageSecurityModeNone {
+		cfg = h.RecvNoneConfig()
+	}
 	rc, err := h.RecvFreshChannel(cfg, h.RecvAck(65535, 65535, 512, 2*1024*1024), false, 0, 0)
 	if err != nil {
 		e.r.InfraError = "channel: " + err.Error()
@@ -175,13 +178,20 @@ func (e *env) exec(tc *tcase) (verdicts []string, table string, ok bool) {
 				return
 			}
 		case "c":
-			n := nonce(v.key)
-			sealer, err := h.NewRecvSealer(tc.uri, tc.mode, n.local, n.server)
-			if err != nil {
-				e.r.InfraError = "sealer: " + err.Error()
-				return
+			var w []byte
+			var err error
+			if tc.mode == ua.MessageSecurityModeNone {
+				// no keys: the chunk's second component is the token id it carries in its header
+				w = h.RecvRefChunk{Type: 'F', ChannelID: v.ch, TokenID: v.key, Seq: seq, Req: seq, Body: []byte{1, 2, 3, 4}}.Raw()
+			} else {
+				n := nonce(v.key)
+				sealer, serr := h.NewRecvSealer(tc.uri, tc.mode, n.local, n.server)
+				if serr != nil {
+					e.r.InfraError = "sealer: " + serr.Error()
+					return
+				}
+				w, err = sealer.Seal(h.RecvRefChunk{Type: 'F', ChannelID: v.ch, TokenID: 1, Seq: seq, Req: seq, Body: []byte{1, 2, 3, 4}})
 			}
-			w, err := sealer.Seal(h.RecvRefChunk{Type: 'F', ChannelID: v.ch, TokenID: 1, Seq: seq, Req: seq, Body: []byte{1, 2, 3, 4}})
 			seq++
 			if err != nil {
 				e.r.InfraError = "seal: " + err.Error()
@@ -229,6 +239,15 @@ func (e *env) runCase(tc *tcase) {
 	e.r.Hit(fmt.Sprintf("mode:%d", tc.mode))
 	e.r.Sample(fmt.Sprintf("%s -> %s", line, impl))
 	req := "tokens " + strings.Join(strings.Fields(line)[3:], " ")
+	if tc.mode == ua.MessageSecurityModeNone {
+		// mode None: model `verdictsNone`; the property (about keys) has no oracle here
+		e.r.Compare(e.d, "tokensnone "+strings.Join(strings.Fields(line)[3:], " "), impl)
+		for i, v := range verdicts {
+			e.r.Hit("none-mode:verdict:" + v)
+			_ = i
+		}
+		return
+	}
 	e.r.Compare(e.d, req, impl)
 
 	// ---- the property's own oracle: after a token has been replaced (a later OPN on
@@ -357,7 +376,7 @@ func (e *env) replay(line string) {
 		return
 	}
 	tc := &tcase{}
-	for _, u := range []string{ua.SecurityPolicyURIBasic256Sha256, ua.SecurityPolicyURIAes128Sha256RsaOaep, ua.SecurityPolicyURIBasic256} {
+	for _, u := range []string{ua.SecurityPolicyURIBasic256Sha256, ua.SecurityPolicyURIAes128Sha256RsaOaep, ua.SecurityPolicyURIBasic256, ua.SecurityPolicyURINone} {
 		if short(u) == f[1] {
 			tc.uri = u
 		}
@@ -428,9 +447,13 @@ func main() {
 	}
 	n := o.N(200, 4000)
 	for i := 0; i < n && r.InfraError == ""; i++ {
-		e.runCase(e.gen())
+		tc := e.gen()
+		if i%5 == 4 { // a channel in mode None: chunks carry token ids, there are no keys
+			tc.uri, tc.mode = ua.SecurityPolicyURINone, ua.MessageSecurityModeNone
+		}
+		e.runCase(tc)
 	}
-	for _, b := range []string{"verdict:acc", "verdict:security", "verdict:noinstance", "expire:tok=chan", "expire:tok≠chan", "probe:superseded-and-expired", "async:real-goroutine"} {
+	for _, b := range []string{"verdict:acc", "verdict:security", "verdict:noinstance", "expire:tok=chan", "expire:tok≠chan", "probe:superseded-and-expired", "async:real-goroutine", "mode:1", "none-mode:verdict:acc", "none-mode:verdict:noinstance"} {
 		if r.Distribution[b] == 0 {
 			r.Unreached = append(r.Unreached, b)
 		}
